@@ -61,6 +61,9 @@ pub enum Op {
         amounts: [u128; 2],
         slippage: Option<String>,
         receiver: Option<usize>,
+        /// list the assets in the message in the reverse of the pool's order
+        #[serde(default)]
+        rev: bool,
     },
     Withdraw {
         lp: u128,
@@ -130,6 +133,8 @@ pub struct Pool2 {
     pub fees_atomics: [u128; 3],
     pub blocks: u64,
     pub model: crate::scen::pool2_oracle::Model,
+    /// whether the next ProvideLiquidity message lists its assets in reverse order
+    pub rev_next: std::cell::Cell<bool>,
 }
 
 pub fn pool_fee(f: &[String; 3]) -> PoolFee {
@@ -229,7 +234,11 @@ impl Pool2 {
         msgs.push(wasm_exec(
             pair,
             &pair::ExecuteMsg::ProvideLiquidity {
-                assets: [self.asset(idx[0], amounts[0]), self.asset(idx[1], amounts[1])],
+                assets: if self.rev_next.get() {
+                    [self.asset(idx[1], amounts[1]), self.asset(idx[0], amounts[0])]
+                } else {
+                    [self.asset(idx[0], amounts[0]), self.asset(idx[1], amounts[1])]
+                },
                 slippage_tolerance: slippage.map(|s| Decimal::from_str(s).unwrap()),
                 receiver: receiver.map(|s| s.to_string()),
             },
@@ -628,6 +637,7 @@ impl Scenario for Pool2 {
             fees_atomics,
             blocks: 0,
             model: Default::default(),
+            rev_next: std::cell::Cell::new(false),
         };
         // liquidity for the helper pair (B,C) so that router hops have something to trade against
         let msgs = s.provide_msgs(&s.pair2.clone(), [1, 2], [5_000_000, 5_000_000], None, None);
